@@ -923,7 +923,7 @@ Proof.
       assert (G : get_job root cwd path = (Err ELookupError, root)).
       { apply get_job_missing. rewrite Habs, EX. reflexivity. }
       rewrite G in Q. rewrite Q. reflexivity. }
-  simpl in JL2.
+  simpl negb in JL2. simpl orb in JL2.
   destruct (innermost_id (rev comps)) as [[i rb]|] eqn:IN.
   2:{ (* no id-like component *)
       pose proof (innermost_none _ IN) as NI. rewrite forallb_rev in NI.
@@ -934,13 +934,14 @@ Proof.
           + rewrite Habs. apply abs_of_segs. discriminate.
           + apply forallb_norun; assumption. }
       rewrite G in Q. rewrite Q. reflexivity. }
-  destruct rb as [|w rproj]; [discriminate|].
-  repeat (apply andb_true_iff in JL2; destruct JL2 as [JL2 ?]).
-  match goal with H : os_exists _ _ _ = true |- _ => rename H into PX end.
-  match goal with H : negb (has_cfg _ _) = true |- _ => apply negb_true_iff in H; rename H into NC end.
-  match goal with H : has_cfg root (rev rproj) = true |- _ => rename H into HC end.
+  destruct rb as [|w rproj]; [discriminate JL2|].
+  apply andb_true_iff in JL2. destruct JL2 as [JL2 PX].
+  apply andb_true_iff in JL2. destruct JL2 as [JL2 PHX].
+  apply andb_true_iff in JL2. destruct JL2 as [JL2 NC].
+  apply andb_true_iff in JL2. destruct JL2 as [JL2 HC].
+  apply negb_true_iff in NC.
   apply str_eqb_eq in JL2. subst w.
-  destruct (phys root (rev (s_workspace :: rproj))) as [ph0|] eqn:PH; [|discriminate].
+  destruct (phys root (rev (s_workspace :: rproj))) as [ph0|] eqn:PH; [|rewrite PH in PHX; discriminate PHX].
   destruct (innermost_some _ _ _ IN) as [rpost [RC [Hi NP]]].
   assert (EC : comps = rev (s_workspace :: rproj) ++ i :: rev rpost).
   { apply (f_equal (@rev str)) in RC. rewrite rev_involutive in RC. rewrite RC.
